@@ -29,7 +29,7 @@ T = {
  "C04": ("Rocq/Coq: unbounded no-panic / in-buffer theorems + audited panic-site obligation + fault enumeration under catch_unwind",
    "Proved for every byte string, consumer and decoder request history (Proofs/NoPanicFacts, DecoderFacts, LoadBytesFacts): with the kernel-computed "
    "well-formedness of the translated grammar data, no Panic site of the parser model (index, unwrap/expect, assert, unreachable arm, fuel) is reachable, "
-   "every read stays inside the buffer, at most len/4 callbacks; the loader consumer never panics; decoder requests keep the buffer invariant. Panic sites of "
+   "every read stays inside the buffer, at most len/4 callbacks; the loader consumer never panics; decoder requests keep the buffer invariant; a loaded module never reaches the disassembler's panics. Panic sites of "
    "the anchored files are re-extracted from the source each run and must be among the audited ones. Memory safety of unsafe code and the assemble/"
    "disassemble half are exercised under catch_unwind (debug+release), not proved (partial)."),
  "C05": ("Rocq/Coq: unbounded theorems (interpreter over source-translated loader arms = layout spec; bracket automaton <-> inductive grammar) + correspondence",
@@ -42,8 +42,10 @@ T = {
    "Proved (Proofs/BuildLoadFacts, BuildConformsFacts, BuilderFacts, BuilderIds): for every complete history of appending calls the built module is "
    "well-classified, hence feeding its instruction sequence to the loader returns exactly the same module; each descriptor-driven method emits an instruction "
    "of its opcode carrying the call's arguments in grammar order that conforms to the grammar (descriptor-vs-grammar match computed by the kernel for the "
-   "descriptors translated from the source; exceptions named); bound = next id. Correspondence runs every instruction-emitting method through "
-   "build/assemble/load in implementation and model. Known finding F18."),
+   "descriptors translated from the source; 11 exceptions named, incl. F18); and the whole statement (Proofs/BuildRoundTripFacts): the assembled bytes of "
+   "such a module load back to exactly the built module and header, given that the emitted stream conforms with layout-order literal widths - implied by "
+   "per-call argument conformance for histories without OpConstant/OpSpecConstant/OpSwitch; a counterexample shows the width condition is needed. "
+   "Correspondence runs every instruction-emitting method through build/assemble/load in implementation and model. Known finding F18."),
  "C07": ("Rocq/Coq: token-level disassembly model with read-back theorem + vocabulary obligations + read-back of the real text",
    "Coq: vocabulary translated from the source equals the reference and is injective per kind; token-level model of Module::disassemble (one line per "
    "instruction in assembly order, line shape, typed constants, extended-instruction names) with read-back/unambiguity theorems for conforming "
@@ -66,6 +68,12 @@ T = {
    "Proved for every grammar, consumer state machine and byte string (Proofs/ProtocolFacts): logging is transparent; callbacks occur as initialize, header, "
    "one per instruction in stream order, finalize, each at most once; a stop/error answer ends the parse at once with the corresponding result and no further "
    "callback; finalize only if everything was parsed without error; a parse error never finalizes; the loader yields a module only for complete parses."),
+ "C20": ("Rocq/Coq: the CLI as a function with total-behaviour theorem + binary-vs-library differential run",
+   "Proved for every byte string (Proofs/DisSafeFacts): dis_main (load_bytes, then Module::disassemble or the error message) always returns exit status 0 "
+   "and never the panic outcome; it prints exactly the library disassembly of the loaded module (one token line per instruction) iff the load succeeds and "
+   "the loading error otherwise; loaded modules never reach the disassembler's index panics or debug assertion. The real rspirv-dis binary is run on "
+   "generated, corrupted, truncated (incl. non-word-aligned) and random files and compared byte for byte with the library result; the token-level "
+   "disassembly model is compared with the real text in C07. Process-level plumbing (stdout, exit code) is observed, not proved."),
  "C18": ("Rocq/Coq: executable lift model over source-translated arms with structure theorems + differential check of the real lifter",
    "Coq model of LiftContext::convert interpreting the lift arms translated from autogen_context.rs (Model/Lift, Proofs/LiftFacts): on the subset lifting "
    "succeeds, preserves version/capabilities/memory model, yields one type/constant/op per declaration in order with operands carried positionally and "
